@@ -558,6 +558,23 @@ def generate(prop, tier, seed, genfn=None, first=1):
     if prop in ('C01', 'C02', 'C03', 'C05', 'C07', 'C11') and (genfn is None or genfn.__name__ == prop.lower()):
         base = [s for s in scens if not s.get('topo')]
         scens = scens + two_conn_variants(base, tier, rng)
+    if prop in ('C03', 'C02', 'C01') and (genfn is None or genfn.__name__ == prop.lower()):
+        # the same programs with pass-through interceptors installed (single / chained; server, client, both):
+        # installing an interceptor that only calls the next stage changes nothing a caller or handler sees
+        import copy
+        extra = []
+        k = 0
+        for s in scens:
+            if s.get('topo') or s.get('runner') or s.get('rawsrv') or s.get('rawcli') or s.get('ncli'):
+                continue
+            k += 1
+            if k % (3 if prop == 'C03' else 9) and tier == 'quick':
+                continue
+            c = copy.deepcopy(s)
+            c['sicpt'], c['cicpt'] = [(1, 0), (3, 0), (1, 1), (0, 1)][(k // 3) % 4]
+            c['tag'] = 'interceptors server=%d client=%d: ' % (c['sicpt'], c['cicpt']) + c.get('tag', '')
+            extra.append(c)
+        scens = scens + extra
     if prop in ('C11', 'C07') and (genfn is None or genfn.__name__ == prop.lower()):
         # the same programs over a transport with back-pressure (2 unread envelopes per direction)
         import copy
